@@ -6,6 +6,6 @@ namespace Driver.C01
 open EnvM Driver.EnvCommon
 
 def processLine (line : String) : String :=
-  processWith (fun i tr => (specC01 i.reqs tr, "-")) line
+  processWith (fun i tr => specC01P i.preqs tr) line
 
 end Driver.C01
